@@ -398,3 +398,15 @@ def r_sib_r_c13_10(ctx):
     from .c04 import r6 as validate_reassembled
     validate_reassembled(ctx)
 
+
+
+@rule("R-C13-11", min_instances=3, title="a re-established connection starts with a fresh WebSocket (fresh frame reader and reassembler): nothing half-read on the lost connection leaks into the events of the new one")
+def r_sib_r_c13_11(ctx):
+    from .c15 import r2 as one_transport
+    one_transport(ctx)
+
+
+@rule("R-C13-12", min_instances=1, title="every well-formed text message is delivered: the validator's automaton equals the Unicode definition (a wrong table cell would turn legal text into a connection error)")
+def r_sib_r_c13_12(ctx):
+    from .c06 import r1 as automaton_equals_unicode
+    automaton_equals_unicode(ctx)
